@@ -243,15 +243,17 @@ NodeAcct(S) == {AppCfg[a].id : a \in {x \in Reg(S) : AppCfg[x].acct}}
 
 \* m.auth / m.acct: sets of application ids advertised in a CER/CEA; relay = 0xffffffff present
 ReceiveCer(S, c, m) ==
-  LET ans == [Answer(m, 0) EXCEPT !.app = 0] IN
-  IF m.oh \notin Peers
+  LET ans == [Answer(m, 0) EXCEPT !.app = 0]
+      h   == IF "ohc" \in DOMAIN m THEN m.ohc ELSE m.oh        \* cer_origin_host = message.origin_host.decode().lower()
+  IN
+  IF h \notin Peers
   THEN SendMessage([S EXCEPT !.conn[c].st = "CLOSING"], c, [ans EXCEPT !.rc = 3010])
-  ELSE LET S1 == IF S.conn[c].nodeName = "" THEN [S EXCEPT !.conn[c].nodeName = m.oh] ELSE S
+  ELSE LET S1 == IF S.conn[c].nodeName = "" THEN [S EXCEPT !.conn[c].nodeName = h] ELSE S
            \* election: connections whose origin_host attribute equals the remote host (never, see DESIGN)
            common == (NodeAuth(S) \cap m.auth) \cup (NodeAcct(S) \cap m.acct)
        IN IF common = {} /\ ~m.relay
           THEN SendMessage(S1, c, [ans EXCEPT !.rc = 5010])
-          ELSE LET S2 == [S1 EXCEPT !.conn[c].originHost = NodeCfg.host, !.conn[c].hostId = m.oh]
+          ELSE LET S2 == [S1 EXCEPT !.conn[c].originHost = NodeCfg.host, !.conn[c].hostId = h]
                    S3 == FlagReady(AssignPeerConnection(S2, c), c)
                IN SendMessage(S3, c, [ans EXCEPT !.rc = 2001])
 
